@@ -390,12 +390,21 @@ fn published_to_diags(world: &BTreeMap<ModName, String>, sess_uri: &dyn Fn(&ModN
 
 // ------------------------------------------------------------------------------------------------
 
+/// The scratch directory of a session. Its path has a **fixed length** and does not depend on
+/// where /verif lives: the path is part of every URI, so its length decides frame sizes, and frame
+/// sizes decide how the transport stream splits reads and writes — a path of another length would
+/// be another schedule, and a replay in a fresh process (other pid) or from a `vp run` snapshot
+/// (other root) would not reproduce.
 fn scratch_root(tag: &str) -> PathBuf {
-  let root = simcore::report::verif_root().join("sim").join("target").join("l2-work");
-  let dir = root.join(format!("{}-{}", std::process::id(), tag));
+  static COUNTER: std::sync::atomic::AtomicU64 = std::sync::atomic::AtomicU64::new(0);
+  let n = COUNTER.fetch_add(1, Ordering::SeqCst);
+  let h = simcore::rng::mix(simcore::rng::mix(std::process::id() as u64, n), simcore::fnv_str(tag));
+  let dir = PathBuf::from(format!("/tmp/verif-l2-work/{h:016x}"));
   let _ = std::fs::remove_dir_all(&dir);
   std::fs::create_dir_all(&dir).expect("create scratch dir");
-  std::fs::canonicalize(&dir).expect("canonicalize scratch dir")
+  let canon = std::fs::canonicalize(&dir).expect("canonicalize scratch dir");
+  assert_eq!(canon, dir, "scratch directory must not be behind a symlink");
+  canon
 }
 
 /// Execute one scenario through the full LSP stack.
@@ -483,8 +492,12 @@ pub fn execute_l2(sc: &Scenario, mode: Mode, tag: &str, mut trace: Option<&mut V
     for f in planned.frames {
       script.push_back((disk.take().unwrap_or_default(), f));
     }
-    if is_mutation {
+    if is_mutation && (mode == Mode::C10 || fifo || plan_rng.chance(1, 3)) {
       script.push_back((Vec::new(), Step::Barrier { check: true, label: format!("after {}", op.kind()) }));
+    } else if is_mutation {
+      // C11: notifications and requests are pipelined freely (a writer queued between two readers
+      // is what lock-ordering mistakes need)
+      stats.inc("l2_notification_pipelined_with_requests");
     } else if plan_rng.chance(1, max_inflight) {
       script.push_back((Vec::new(), Step::Barrier { check: false, label: "drain".into() }));
     }
@@ -813,7 +826,7 @@ pub fn execute_l2(sc: &Scenario, mode: Mode, tag: &str, mut trace: Option<&mut V
 }
 
 pub fn declare_counters(ev: &mut simcore::report::Evidence) {
-  ev.faults_fired.declare(&["l2_short_reads", "l2_short_writes", "l2_transport_stalls", "l2_frame_sent_in_pieces", "l2_did_create_files", "l2_did_rename_files", "l2_did_delete_files", "l2_delete_of_file_unknown_to_server", "l2_requests"]);
+  ev.faults_fired.declare(&["l2_short_reads", "l2_short_writes", "l2_transport_stalls", "l2_frame_sent_in_pieces", "l2_did_create_files", "l2_did_rename_files", "l2_did_delete_files", "l2_delete_of_file_unknown_to_server", "l2_requests", "l2_notification_pipelined_with_requests"]);
   ev.probes.declare(&["l2_messages_sent", "l2_error_responses", "l2_sessions_with_pipelining", "l2_sessions_completed_cleanly", "l2_quiescent_comparisons"]);
 }
 
